@@ -538,9 +538,21 @@ def call_spec(ctx, cls: str, rule: str = 'R10.3') -> List[Ob]:
              left_ok, C.show(mask) if mask is not None else 'missing', 'seq-left', node)
         if mask is not None:
             ms = C.show(mask)
-            mask_ok = 'np.logical_and' in ms and '!= 0' in ms
+
+            def conjuncts(m) -> list:
+                a_ = C.single_atom(m) if C.is_poly(m) else m
+                if a_ is not None and a_[0] == 'call' and a_[1] in ('np.logical_and', 'logical_and') and len(a_[2]) == 2:
+                    return conjuncts(a_[2][0]) + conjuncts(a_[2][1])
+                if a_ is not None and a_[0] == 'and':
+                    return [x for c_ in a_[1] for x in conjuncts(c_)]
+                return [a_ if a_ is not None else m]
+            got_c = set(conjuncts(mask))
+            # right-side index differs from the left-side index (the time is a breakpoint), index > 1 (not the first breakpoint),
+            # index < len(x) (not the last one)
+            want_c = {('cmp', 'ne', C.sub(ind_l, ind)), ('cmp', 'lt', C.sub(C.ONE, ind)), ('cmp', 'lt', C.sub(ind, xlen))}
+            want_alt = {('cmp', 'ne', C.sub(ind, ind_l)), ('cmp', 'lt', C.sub(C.ONE, ind)), ('cmp', 'lt', C.sub(ind, xlen))}
             _req(obs, rule, fi, "sequence of times: the midpoint rule applies only to interior breakpoints (index > 1 and index < len(x))",
-                 mask_ok and ' - 1 < 0' not in ms.replace('ind', ''), ms, 'seq-mask', node)
+                 got_c == want_c or got_c == want_alt, ms, 'seq-mask', node)
     else:
         obs.append(inconclusive(rule, f"{fi.name}: one sequence path found", fi.loc(), f"{len(seq)}", construct=f"{_fn(fi)}::seq"))
     return obs
